@@ -29,16 +29,59 @@ def run(m: Model, r: Report, tier: str) -> None:
     hc = m.require_function(f"{SRV}.TCPUDSServerTransport.handle_client")
 
     # ---------------------------------------------------------------- R1
-    w = [n for n in ast.walk(cw.node) if isinstance(n, ast.Call) and isinstance(n.func, ast.Attribute) and n.func.attr == "write"]
-    r.check(len(w) == 1 and ast.unparse(w[0].args[0]).replace(" ", "") == "binascii.hexlify(data)+b'\\n'", "R1", f"{cw.qualname}#encoding",
-            f"client writes `{ast.unparse(w[0].args[0]) if w else None}`", loc=cw.loc)
+    # what the client writes for a message, evaluated: the lower-case hex text of the bytes followed by exactly one newline, in one write call
+    import binascii as _ba
+    from sa import miniterp as _mt19
+
+    def _lenient(record: list, extra=None):
+        def orc(call, env_):
+            f_ = ast.unparse(call.func)
+            if f_.split(".")[-1] in ("hexlify", "unhexlify") and len(call.args) == 1:
+                v_ = _mt19.eval_expr(call.args[0], env_, orc)
+                try:
+                    return getattr(_ba, f_.split(".")[-1])(v_)
+                except (ValueError, TypeError) as ex_:
+                    raise _mt19.Raised(ast.Raise(exc=ast.Name(id=type(ex_).__name__, ctx=ast.Load()), cause=None))
+            if isinstance(call.func, ast.Attribute) and call.func.attr == "write" and len(call.args) == 1:
+                record.append(_mt19.eval_expr(call.args[0], env_, orc))
+                return None
+            if extra is not None:
+                v_ = extra(call, env_, orc)
+                if v_ is not NotImplemented:
+                    return v_
+            return None        # logging, drain, getters: no influence on the bytes
+        return orc
+    cpar = cw.params()
+    enc_bad, enc_unk = [], None
+    try:
+        for msg_ in (b"\x10\x03", b"\x00", b"\xab\xcd\xef" * 5):
+            rec_: list = []
+            _mt19.run_function(cw.node, {cpar[1]: msg_, **{p_: None for p_ in cpar[2:]}}, _lenient(rec_))
+            if rec_ != [msg_.hex().encode() + b"\n"]:
+                enc_bad.append(f"{msg_.hex()} -> written {rec_}")
+    except (AnalysisError, _mt19.Raised) as ex_:
+        enc_unk = str(ex_)
+    r.check3(None if enc_unk else not enc_bad, "R1", f"{cw.qualname}#encoding", f"client writes {enc_bad[:2]}; a message is its hex text plus one newline, in one write", loc=cw.loc,
+             unknown_msg=f"write is outside the evaluated language: {enc_unk}")
     src = ast.unparse(cr.node)
     r.check(".readline()" in src and ".decode().strip()" in src and m.has(cr, "binascii.unhexlify(d)"), "R1", f"{cr.qualname}#decoding",
             "client read must be readline -> strip -> unhexlify", loc=cr.loc)
     hsrc = ast.unparse(hc.node)
     sw = [n for n in ast.walk(hc.node) if isinstance(n, ast.Call) and ast.unparse(n.func) == "writer.write"]
-    r.check(len(sw) == 1 and m.mtext(hc, sw[0].args[0]).replace(" ", "") == "hexlify(_L)+b'\\n'", "R1", f"{hc.qualname}#encoding",
-            f"server writes `{ast.unparse(sw[0].args[0]) if sw else None}`", loc=hc.loc)
+    if len(sw) != 1:
+        r.check(False, "R1", f"{hc.qualname}#encoding", f"the server has {len(sw)} writer.write calls per reply; a reply is written in one piece", loc=hc.loc)
+    else:
+        lv_ = sorted({x.id for x in ast.walk(sw[0].args[0]) if isinstance(x, ast.Name) and x.id in m.local_names(hc)})
+        sbad, sunk = [], None
+        try:
+            for msg_ in (b"\x50\x03", b"\x7f\x10\x11"):
+                got_ = _mt19.eval_expr(sw[0].args[0], {v_: msg_ for v_ in lv_}, _lenient([]))
+                if got_ != msg_.hex().encode() + b"\n":
+                    sbad.append(f"{msg_.hex()} -> {got_!r}")
+        except (AnalysisError, _mt19.Raised) as ex_:
+            sunk = str(ex_)
+        r.check3(None if sunk else not sbad, "R1", f"{hc.qualname}#encoding", f"server writes {sbad[:2]}; a reply is its hex text plus one newline", loc=hc.loc,
+                 unknown_msg=f"reply expression outside the evaluated language: {sunk}")
     r.check("await reader.readline()" in hsrc and ".strip()" in hsrc and m.has(hc, "unhexlify(tcp_request)"), "R1", f"{hc.qualname}#decoding",
             "server read must be readline -> strip -> unhexlify", loc=hc.loc)
 
